@@ -11,6 +11,7 @@ sys.path.insert(0, str(Path(__file__).resolve().parent.parent / 'translate'))
 import lib  # noqa
 import c08_cfg  # noqa
 import c08_types  # noqa
+import c08_renumber  # noqa
 
 PID = 'C08'
 
@@ -562,8 +563,15 @@ def main(ctx):
     # colliding element ids (the _unique_element_ids branch): model = Renumber.update_self_fuel with
     # the environment fact `writable` probed on the implementation
     dres = {r['id']: r for r in res.get('dcases', [])}
-    writable = bool(res.get('ids_writable'))
-    ctx.notes['ids_inplace_add_writable'] = writable
+    probe = bool(res.get('ids_writable'))
+    ctx.notes['ids_inplace_add_writable'] = probe
+    try:
+        kind = c08_renumber.translate(str(lib.REPO))
+        ctx.notes['unique_element_ids_shift'] = kind + ' (read from the source)'
+        writable = probe or kind == 'assign'        # a new array is assigned: works everywhere
+    except (c08_renumber.TranslateError, SyntaxError, OSError) as e:
+        ctx.notes['unique_element_ids_shift'] = 'unreadable (%s): environment probe only' % e
+        writable = probe
     dgood = [c for c in dcases if c['id'] in dres and 'error' not in dres[c['id']]]
     dbad = coq_check(ctx, 'DCorr0', [dcase_l(c, dres[c['id']], writable) for c in dgood],
                      extra='From FV.C08 Require Import Renumber CorrDup.\n') if dgood else {}
@@ -684,6 +692,25 @@ def main(ctx):
                       {'codes': codes, 'impl': eresults[cid]}, 'correspondence C08 (Corr.check_summary)',
                       found_input=True,
                       signature={'kind': 'correspondence-collection', 'codes': str(codes)})
+    # oracle on the duplicate-id collections: a failed public update must not leave the summary
+    # half rebuilt; a successful one must agree with the constructor on the same final dict
+    for c in dgood:
+        r = dres[c['id']]
+        u = r.get('upd') or {}
+        views = []
+        if r.get('upd_raised') and (u['ids'] != u['id2index_ids'] or u['keys'] != u['dti_keys']
+                                    or len(set(u['ids'])) != len(u['ids'])):
+            views.append('half-updated-after-failed-update')
+        if not r.get('upd_raised') and not r.get('raised') and (u['ids'] != r['ids'] or u['types'] != r['types']):
+            views.append('update-vs-constructor')
+        for v in views:
+            ctx.violation('impl-violation', {'dup_blocks': c['blocks']},
+                          'after update({blocks}) - raised or not - ids, types, id2index and dict_type_ids '
+                          'describe one collection', {'after_update': u, 'update_raised': r.get('upd_raised')},
+                          'C08_duplicate_ids_branch / C08_summary_defined_iff_distinct (oracle on the implementation)',
+                          found_input=True,
+                          signature={'site': 'FEMElementalAttribute._unique_element_ids', 'views': v},
+                          what='colliding element ids: ' + v)
     for cid, codes in sorted(dbad.items())[:3]:
         c = next(x for x in dcases if x['id'] == cid)
         ctx.violation('correspondence', {'dup_blocks': c['blocks'], 'ids_writable': writable},
